@@ -140,6 +140,9 @@ def body(N, load, colname, fdt, dep, lightcone):
     cols['pack9'] = p9a
     present = {k: Sym(c.input(f'has[{k}]', z3.BoolSort())) for k in RAW}
     tree = {'data': Tree(cols, present), 'header': header}
+    # the oracle decodes a snapshot of the file taken BEFORE the call: a reader that scribbles over the block it loaded
+    # (and thereby over a column that shares the block) must not take the oracle with it
+    cols = {k: v.copy() for k, v in cols.items()}
     kw = {}
     if dep[0] is not None:
         kw['load_pos'] = dep[0]
@@ -242,6 +245,8 @@ def items(tier, seed):
     Ns = (0, 2) if tier == 'quick' else (0, 2, 3)
     loads = [None, (), ('pos',), ('vel',), ('pos', 'vel'), ('vel', 'pos'), ('pid',), ('aux',), ('pid', 'lagr_pos'), ('tagged', 'density'),
              ('lagr_idx', 'aux'), ('pos', 'pid')]
+    # every pair of particle-id outputs (the raw 'aux' column shares its buffer with the block the other outputs are decoded from)
+    loads += [c for c in itertools.combinations(PIDNAMES, 2) if c not in loads] + [('aux', 'pid')]
     if tier == 'thorough':
         loads += [c for r in (3, 4, 5, 6) for c in itertools.combinations(PIDNAMES, r)]
     for N in Ns:
